@@ -68,8 +68,12 @@ pub fn run(report: &Report, thorough: bool) -> Evidence {
     // (the last wrapping is a literal colon after the word, typed as colon + back-tick)
     let wraps: Vec<(&str, &str)> = vec![("", ""), ("(", ")"), ("\"", "\""), ("'", "'"), ("", "."), ("", "?!"), ("", ":`")];
     let suffixes = ["er", "ke", "gulo", "ra", "te", "e", "r", "i", "o"];
-    // (english, smart)
-    let cfgs: Vec<(bool, bool)> = if thorough { vec![(false, true), (true, true), (true, false), (false, false)] } else { vec![(true, true), (false, false)] };
+    // (english, smart, ansi)
+    let cfgs: Vec<(bool, bool, bool)> = if thorough {
+        vec![(false, true, false), (true, true, false), (true, false, false), (false, false, false), (false, true, true), (true, false, true)]
+    } else {
+        vec![(true, true, false), (false, false, false), (false, true, true)]
+    };
     let interleave: Vec<Vec<(&str, usize)>> = vec![vec![], vec![("as", 1)], vec![("ke", 1), ("a", 2)]];
 
     let learn_recall = AtomicU64::new(0);
@@ -84,11 +88,12 @@ pub fn run(report: &Report, thorough: bool) -> Evidence {
         1,
         |w| scratch_xdg(&format!("c09-{}", w)),
         |xdg, idx| {
-            let (english, smart) = cfgs[idx % cfgs.len()];
+            let (english, smart, ansi) = cfgs[idx % cfgs.len()];
             let word = &words[idx / cfgs.len()];
             let mut o = Opts::phonetic(&real_db(), xdg);
             o.english = english;
             o.smart = smart;
+            o.ansi = ansi;
             let mut ctx = Ctx::new(&o).expect("ctx");
             ctx.with_pre = false;
             let files = BTreeMap::new();
